@@ -89,7 +89,10 @@ def build_one(exe, rng, idx):
 
 
 def gen_run(exe, rng, tier):
-    return WH.run_parallel(exe, rng, 24 if tier == "quick" else 400, build_one)
+    return (WH.run_parallel(exe, rng, 24 if tier == "quick" else 400, build_one) +
+            # identifiers are released only by an answer, the deadline, or the cancellation of THEIR request: requests that never got one
+            # (held back by loop prevention) are given up by their client while others hold the low identifiers
+            WH.run_parallel(exe, rng, 60 if tier == "quick" else 1500, WH.loop_cancel_history))
 
 
 def gen(rng, tier):
